@@ -30,7 +30,9 @@ def _observe(recv, helpers):
             if "value" in b:
                 p = _call(parse, b["value"]) if style == "positional" else _call(parse, path=b["value"])
             nm = [(_call(parse, s) if style == "positional" else _call(parse, path=s)) for s in h.get("nonmatching", [])]
-            ent[style] = {"built": b, "parsed": p, "nonmatching": nm}
+            # rebuilding from what parse returned, the way a caller writes it: build(**parse(path))
+            rb = _call(build, **p["value"]) if (p is not None and isinstance(p.get("value"), dict)) else None
+            ent[style] = {"built": b, "parsed": p, "nonmatching": nm, "rebuilt": rb}
         out.append(ent)
     return out
 
